@@ -51,7 +51,8 @@ def run(ck, tier, seed):
                     bad = "evaluation error answered with status %d: %s" % (status, body.strip()[:120])
                 elif h == "httpI":
                     bad = "evaluation error answered with status %d: %s" % (status, body.strip()[:120])
-            elif status >= 500 and body.strip() not in ('{"error":"Internal server error"}',):
+            elif status >= 500 and body.strip() not in ('{"error":"Internal server error"}',) and not (spec_kind == "value" and c["out"].get("st", 200) >= 500):
+                # (a 5xx the program itself asks for - `> body :: 503`, a failing guard - carries the program's body)
                 bad = "5xx body is not the generic one: " + body.strip()[:160]
             if bad:
                 sig = "%s/%s" % (h, bad.split(":")[0][:40])
